@@ -118,7 +118,7 @@ func c07ProfTypes(r *Rng, core []int, aligned []c07Type) []c07Type {
 // conversions: the new unit must divide the value's physical quantity)
 func c07Converted(r *Rng, p *c07Prof) c07Prof {
 	perm := c07Perm(r, len(p.Types))
-	q := c07Prof{Build: p.Build}
+	q := c07Prof{Build: p.Build, Sym: p.Sym}
 	newUnits := make([]string, len(p.Types))
 	for j, t := range p.Types {
 		newUnits[j] = t.Unit
@@ -164,7 +164,7 @@ func c07GenCLI(r *Rng, i int) *c07Case {
 	default:
 		cs.Mode = "diff_base"
 	}
-	nsrc := 1 + r.Intn(3)
+	nsrc := 1 + r.Intn(5)
 	nbase := 0
 	if cs.Mode != "plain" {
 		nbase = 1 // the open-source flag set keeps only the last -base/-diff_base value
@@ -226,15 +226,54 @@ func c07GenCLI(r *Rng, i int) *c07Case {
 			}
 		}
 	}
-	if !strings.HasPrefix(cs.Strategy, "self-difference") && r.Chance(50) {
-		// profiles from different builds: entries must still be combined by name
-		cs.Strategy += "+builds"
+	self := strings.HasPrefix(cs.Strategy, "self-difference")
+	all := func(f func(p *c07Prof, isBase bool)) {
 		for k := range cs.Sources {
-			cs.Sources[k].Build = r.Intn(3)
+			f(&cs.Sources[k], false)
 		}
 		for k := range cs.Bases {
-			cs.Bases[k].Build = 1 + r.Intn(3)
+			f(&cs.Bases[k], true)
 		}
+	}
+	switch x := r.Intn(100); {
+	case self || x < 25:
+	case x < 55:
+		// profiles from different builds: entries must still be combined by name
+		cs.Strategy += "+builds"
+		all(func(p *c07Prof, isBase bool) {
+			p.Build = r.Intn(3)
+			if isBase {
+				p.Build = 1 + r.Intn(3)
+			}
+		})
+	default:
+		// the same binary symbolized differently (same mapping, same addresses): renamed
+		// function, other line / file / start line, no symbol information
+		cs.Strategy += "+symvariants"
+		k := 0
+		all(func(p *c07Prof, isBase bool) {
+			p.Sym = (k + r.Intn(2)) % 3
+			k++
+		})
+	}
+	if r.Chance(60) {
+		// different table sizes and id schemes, ASLR-shifted mappings (a profile re-encoded this way
+		// is the same profile: also applied to the base of a self-difference)
+		cs.Strategy += "+tables"
+		all(func(p *c07Prof, isBase bool) {
+			p.IDs, p.Extra, p.Aslr = r.Intn(3), r.Intn(8), r.Intn(3)
+		})
+	}
+	aslr := false
+	all(func(p *c07Prof, isBase bool) { aslr = aslr || p.Aslr != 0 })
+	switch x := r.Intn(100); {
+	case x < 12:
+		cs.Gran = "lines"
+	case x < 22:
+		cs.Gran = "files"
+	case x < 32 && !aslr:
+		// (addresses of an ASLR-shifted input are shown rebased in the combined report)
+		cs.Gran = "addresses"
 	}
 	common := c07CommonTypes(cs)
 	if len(common) > 0 {
